@@ -45,8 +45,8 @@
         filters plus a rounding bound; it is tight (1015 of 1023 at 8 bits, HH of depth 5). *)
 From V Require Import Common.Base Pipe.PipeModel Pipe.PipeProofsFront
   PipeHT.PhtModel PipeHT.PhtHyps PipeHT.PhtProofsMain PipeHT.PhtProofsCheck PipeHT.PhtProofsDeliv PipeHT.PhtProofsDelivCheck
-  PipeHT.PhtProofsHyps PipeHT.PhtProofsKmax.
-Require V.HT.HtProofsLevels V.HT.HtProofsTables.
+  PipeHT.PhtProofsHyps PipeHT.PhtProofsKmax PipeHT.PhtProofsDwt1 PipeHT.PhtProofsKmax1.
+Require V.HT.HtProofsLevels V.HT.HtProofsTables V.DWT.DwtGrowth2.
 
 Theorem C06_pipe_ht_roundtrip_partial : forall p samples, pht_scope p -> samples_ok p samples ->
   let pix := pack_image p samples in
@@ -175,4 +175,67 @@ Proof. exact growth_bound_above_kmax. Qed.
 Print Assumptions C06_pipe_ht_growth_bound_insufficient.
 Example C06_pipe_ht_growth_bound_instance :
   HtProofsLevels.kmax_of 5 8 false 3 = 10 /\ 2 ^ 10 <= 231 * 2 ^ (8 - 1) + 227 /\ 231 * 2 ^ (8 - 1) + 227 = 29795.
+Proof. repeat split; vm_compute; try reflexivity; intro; discriminate. Qed.
+
+(* ---- one decomposition level (tile origin (0,0)): hyp_kmax_fit is a theorem ----
+   Samples in the two's-complement range [-A, A-1] (A = 2^(P-1); 2^P for the planes after the RCT)
+   go through one level of the 5/3 transform as coded (floors of predict / update included) to
+   coefficients within +-(4A - 2) (PhtProofsDwt1.fwd53_ml1_ab), and every band of a one-level
+   decomposition has Kmax = P + 1 (P + 2 with the RCT bit), so |c| <= 4A - 2 < 2^Kmax. *)
+Theorem C06_pipe_ht_kmax_fit_levels1 : forall p samples, pht_scope p -> pp_levels p = 1 -> pp_x0 p = 0 -> pp_y0 p = 0 ->
+  samples_ok p samples -> hyp_kmax_fit p (pack_image p samples).
+Proof. exact pht_kmax_fit_levels1. Qed.
+Print Assumptions C06_pipe_ht_kmax_fit_levels1.
+
+Theorem C06_pipe_ht_roundtrip_partial2_levels1 : forall p samples, pht_scope p -> pp_levels p = 1 -> pp_x0 p = 0 -> pp_y0 p = 0 ->
+  samples_ok p samples ->
+  let pix := pack_image p samples in
+  hyp_no_zero_block p pix -> hyp_ht_block_sizes p pix ->
+  exists tile, pht_encode_tile p pix = Ok tile /\ pht_decode_tile p tile = Ok pix.
+Proof. exact pht_roundtrip_partial2_levels1. Qed.
+Print Assumptions C06_pipe_ht_roundtrip_partial2_levels1.
+
+Theorem C06_pipe_ht_decode_given_delivery2_levels1 : forall p samples tile, pht_scope p -> pp_levels p = 1 -> pp_x0 p = 0 -> pp_y0 p = 0 ->
+  samples_ok p samples ->
+  let pix := pack_image p samples in
+  hyp_t2_delivers p pix tile -> pht_decode_tile p tile = Ok pix.
+Proof. exact pht_decode_given_delivery2_levels1. Qed.
+Print Assumptions C06_pipe_ht_decode_given_delivery2_levels1.
+
+(* the one-level DWT bound itself *)
+Theorem C06_dwt53_one_level_asym_bound : forall A d w h, 1 <= A -> abnd A d ->
+  DwtGrowth.bnd (4 * A - 2) (DwtModel.fwd53_ml d w h 1 0 0).
+Proof. exact fwd53_ml1_ab. Qed.
+Print Assumptions C06_dwt53_one_level_asym_bound.
+
+(* the 4x4 one-level image of C06_pipe_ht_nonvacuous (origin (0,0)) and the constant image with the
+   Go-written tile of C06_pipe_ht_delivery_nonvacuous are instances; the bound 4A - 2 is attained
+   by the HH coefficient of the 2x2 checkerboard of extreme samples *)
+Example C06_pipe_ht_levels1_nonvacuous :
+  let p := mkPP 4 4 1 8 false 1 4 4 false 2 0 0 4 in
+  let s := [200; 3; 77; 140; 9; 250; 31; 66; 120; 5; 180; 91; 17; 230; 44; 101] in
+  pht_scope p /\ pp_levels p = 1 /\ pp_x0 p = 0 /\ pp_y0 p = 0 /\ samples_ok p s /\
+  hyp_no_zero_block p (pack_image p s) /\ hyp_ht_block_sizes p (pack_image p s) /\
+  hyp_t2_delivers p (pack_image p (repeat 200 16)) [192; 42; 0; 14; 71; 71; 199; 0; 129; 180; 0; 0] /\
+  abnd 128 [127; -128; -128; 127] /\ DwtModel.fwd53_ml [127; -128; -128; 127] 2 2 1 0 0 = [0; 0; 0; 510] /\ 4 * 128 - 2 = 510.
+Proof.
+  destruct C06_pipe_ht_nonvacuous as (A & B & _ & C & D & _).
+  destruct C06_pipe_ht_delivery_nonvacuous as (_ & _ & _ & E & _).
+  cbv zeta.
+  split; [exact A|]. split; [reflexivity|]. split; [reflexivity|]. split; [reflexivity|]. split; [exact B|].
+  split; [exact C|]. split; [exact D|]. split; [exact E|].
+  split; [repeat constructor; lia|]. split; vm_compute; reflexivity.
+Qed.
+
+(* why the one-level argument does not iterate: the level-by-level composition of the per-pass
+   bounds (LL window of a level within Lb (Lb B), Lb a = (3a+1)/2; the other bands within 4 B) is
+   already >= 2^Kmax for the HH band of depth 2, for every precision 1..16 *)
+Theorem C06_pipe_ht_level_recursion_insufficient : forall rct,
+  forallb (fun P => 2 ^ HtProofsLevels.kmax_of 2 P rct 3 <=?
+                    4 * DwtGrowth2.Lb (DwtGrowth2.Lb (2 ^ (HtProofsLevels.prec_of P rct - 1))))
+          (HtProofsTables.zrange 1 16) = true.
+Proof. exact level_recursion_insufficient. Qed.
+Print Assumptions C06_pipe_ht_level_recursion_insufficient.
+Example C06_pipe_ht_level_recursion_instance :
+  HtProofsLevels.kmax_of 2 8 false 3 = 10 /\ 4 * DwtGrowth2.Lb (DwtGrowth2.Lb 128) = 1152 /\ 2 ^ 10 <= 1152.
 Proof. repeat split; vm_compute; try reflexivity; intro; discriminate. Qed.
